@@ -135,7 +135,7 @@ def count_evaluations(macros, mname, roles):
     nparams = len(roles)
     src = '%s(%s)' % (mname, ', '.join('__vc_arg%d()' % i for i in range(nparams)))
     toks = expand(tokenize(src), macros)
-    lo = [None] * nparams; hi = [0] * nparams
+    lo = [None] * nparams; hi = [0] * nparams; failed = None
     if not toks:                                   # empty expansion (the fences): nothing is evaluated
         return [(0, 0, 0)] * nparams
     ps = Parser(toks + [('p', ';')], typenames=())
@@ -166,11 +166,20 @@ def count_evaluations(macros, mname, roles):
             builtins = {'__builtin_compare_and_swap': b_cas, '__builtin_atomic_exchange': b_xchg, 'sizeof': lambda words: 8, '_Alignof': lambda words: 8}
             for i, role in enumerate(roles):
                 builtins['__vc_arg%d' % i] = arg(i, role)
-            OnceEval({}, builtins=builtins).ev(e, {})
+            try:
+                OnceEval({}, builtins=builtins).ev(e, {})
+            except NotInSubset as x:
+                # the run was abandoned (e.g. a retry loop that does not end): the evaluations counted so far did happen
+                failed = failed or x
+                for i in range(nparams):
+                    hi[i] = max(hi[i], counts[i])
+                continue
             for i in range(nparams):
                 lo[i] = counts[i] if lo[i] is None else min(lo[i], counts[i])
                 hi[i] = max(hi[i], counts[i])
-    return [(lo[i], hi[i], upper_bound(e, '__vc_arg%d' % i)) for i in range(nparams)]
+    if failed is not None and max(hi) <= 1:
+        raise failed
+    return [(1 if lo[i] is None else lo[i], hi[i], upper_bound(e, '__vc_arg%d' % i)) for i in range(nparams)]
 
 
 def r_operands_once(P, rep, rule):
